@@ -113,6 +113,9 @@ def _root_base(t):
     return t
 
 
+RESTRUCTURED_UNDECIDED = [False]      # set by a rule around agree_ref: regrouped statements are UNDECIDED, not violations
+
+
 def _match_groups(ctx, rule, title, fi, what_label, A, B, comps, describe):
     """Compare two collections of events irrespective of the interleaving of INDEPENDENT events.
     comps(e) -> [(label, term)].  Pass 1 pairs events whose components are all EQUAL (any position);
@@ -212,6 +215,13 @@ def _match_groups(ctx, rule, title, fi, what_label, A, B, comps, describe):
             left2 += la
             rest2 += lb
     left, rest_b = left2, rest2
+    if RESTRUCTURED_UNDECIDED[0] and len(left) != len(rest_b):
+        # a different NUMBER of unmatched events: the statements were regrouped (loop nest restructured), a one-to-one
+        # comparison with the reference walk does not apply -- not decided, rather than reporting arbitrary pairs
+        ctx.ob(rule, f'{title}: {what_label}s are organised differently from the reference definition (not comparable one to one)',
+               fi, None, {'code': [describe(e) for e, _ in left], 'reference': [describe(e) for e, _ in rest_b]}, node=fi.node,
+               construct=f'{what_label}s [restructured]')
+        return
     ordered = []
     pool = list(rest_b)
     for ea, xa in left:
